@@ -48,3 +48,19 @@ def run(ctx):
         ctx.violation("resolve:" + x["key"], "Resolve case %s: %s" % (x["key"], x["diff"][:400]), x)
     for c in cases[:1] + cases[len(cases) // 2:len(cases) // 2 + 1]:
         ctx.sample({"input": c["inp"], "shapes": [c["hs"], c["as"], c["a6s"], c["ts"]], "spec_queries": c["queries"], "spec_result": c["result"]})
+
+    # direction B: seeded random DNS universes (chains and loops of any length, CNAME chains, error names, poisoned answers);
+    # TLC runs Resolve.tla on each recorded universe and the observed result / queries must be the specification's
+    n = 400 if ctx.quick else 20000
+    f_tr = ctx.path("rz.ndjson")
+    rc, out = ctx.go_test("^TestResolveRandomZones$", env={"VH_OUT": f_tr, "VH_N": n}, timeout=2400)
+    traces = vlib.split_traces(vlib.read_ndjson(f_tr))
+    if len(traces) < n:
+        raise vlib.Inconclusive("random-zone driver produced %d of %d traces:\n%s" % (len(traces), n, out[-1500:]))
+    for tr in traces:
+        ctx.case("rz:" + vlib.fp(tr[0]["scen"]))
+    ctx.notes["random_zones"] = len(traces)
+    ctx.sample({"random_zone_trace": [tr for tr in traces[:1]][0][:3]})
+    CH = 5000
+    for i in range(0, len(traces), CH):
+        vlib.check_traces(ctx, traces[i:i + CH], "rz%d" % (i // CH), module="TraceResolve", cfg="TraceResolve.cfg", specname="Resolve.tla (random zone)")
